@@ -245,6 +245,8 @@ def write_replay(pid: str, v: Dict[str, Any]) -> str:
     d = os.path.join(VERIF, "replays", pid)
     os.makedirs(d, exist_ok=True)
     body = {"property": pid, **v}
+    if sys.flags.optimize and isinstance(body.get("case"), dict):
+        body["case"] = dict(body["case"], python_optimize=int(sys.flags.optimize))
     h = sha(body["case"])[:16]
     path = os.path.join(d, f"{h}.json")
     with open(path, "w") as f:
@@ -298,6 +300,11 @@ def main(argv: Optional[List[str]] = None) -> int:
     if a.replay:
         try:
             body = json.load(open(a.replay))
+            if isinstance(body.get("case"), dict) and body["case"].get("python_optimize") and not sys.flags.optimize:
+                # the case was found by the `python -O` child run: replay it the same way
+                import subprocess
+
+                return subprocess.call([sys.executable, "-O", "-m", "vlib.runner", pid, tier, "--replay", a.replay])
             msg = mod.replay(body["case"])
         except Exception:
             traceback.print_exc()
@@ -376,7 +383,26 @@ def main(argv: Optional[List[str]] = None) -> int:
         results = [f.result() for f in futs]
         ex.shutdown(wait=True)
 
+    # -- configuration axis: the same search, smaller, in an interpreter started with -O (assert statements and
+    #    __debug__ blocks are stripped; a codec must not depend on them)
+    child_out = ""
+    child_rc = 0
+    if getattr(mod, "ALSO_UNDER_O", False) and not os.environ.get("VERIF_CHILD") and not sys.flags.optimize:
+        import subprocess
+
+        env = dict(os.environ, VERIF_CHILD="1", VERIF_NO_EVIDENCE="1",
+                   VERIF_BUDGET_SCALE=str(getattr(mod, "UNDER_O_SCALE", 0.06)))
+        try:
+            cp = subprocess.run([sys.executable, "-O", "-m", "vlib.runner", pid, tier, "--shards", "2", "--seed", str(seed)],
+                                env=env, stdout=subprocess.PIPE, stderr=subprocess.STDOUT, text=True,
+                                timeout=float(os.environ.get("VERIF_WATCHDOG_S", "2400")))
+            child_out, child_rc = cp.stdout, cp.returncode
+        except subprocess.TimeoutExpired:
+            child_out, child_rc = "python -O child run timed out", 2
+
     errors = [r["error"] for r in results if r["error"]]
+    if child_rc == 2:
+        errors.append("python -O child run: " + child_out[-600:])
     agg_classes: collections.Counter = collections.Counter()
     nontrivial: set = set()
     evaluations = 0
@@ -442,6 +468,11 @@ def main(argv: Optional[List[str]] = None) -> int:
         "regression_replays": n_reg,
         **extra,
     }
+    if getattr(mod, "ALSO_UNDER_O", False) and child_out:
+        import re as _re
+
+        m_ = _re.search(r"evaluations=(\d+)", child_out)
+        coverage["python_O_child_run"] = {"exit": child_rc, "evaluations": int(m_.group(1)) if m_ else None}
     if getattr(mod, "EXHAUSTIVE", None):
         coverage["exhaustive"] = bool(mod.EXHAUSTIVE(tier)) if callable(mod.EXHAUSTIVE) else bool(mod.EXHAUSTIVE)
     write_evidence(pid, tier, seed, getattr(mod, "LEVEL", "exploration"), coverage,
@@ -453,11 +484,18 @@ def main(argv: Optional[List[str]] = None) -> int:
         f"{pid} {tier} seed={seed}: evaluations={evaluations} distinct_nontrivial={len(nontrivial)} "
         f"known_hits={sum(known_hits.values())} rejected_by_frontend={rejected}/{attempts} wall={wall:.1f}s"
     )
+    if child_rc == 1:
+        print("  under `python -O`:")
+        for line in child_out.splitlines():
+            if line.startswith("  ") or line.startswith("VIOLATION property="):
+                print(line)
     if viol:
         for v in viol:
             path = write_replay(pid, v)
             print(f"  {v['message'][:600]}")
             print(f"VIOLATION property={pid} replay={path}")
+        return 1
+    if child_rc == 1 and "VIOLATION property=" in child_out:
         return 1
     if errors:
         for e in errors[:3]:
